@@ -315,6 +315,26 @@ func constInts(v ssa.Value, depth int) []int64 {
 		return constInts(v.X, depth+1)
 	case *ssa.ChangeType:
 		return constInts(v.X, depth+1)
+	case *ssa.Call:
+		// a helper that computes the constant: the union over its returns
+		cal := v.Call.StaticCallee()
+		if cal == nil || len(cal.Blocks) == 0 || cal.Signature.Results().Len() != 1 {
+			return nil
+		}
+		var out []int64
+		for _, b := range cal.Blocks {
+			if len(b.Instrs) == 0 {
+				continue
+			}
+			if ret, ok := b.Instrs[len(b.Instrs)-1].(*ssa.Return); ok && len(ret.Results) == 1 {
+				s := constInts(ret.Results[0], depth+2)
+				if s == nil {
+					return nil
+				}
+				out = append(out, s...)
+			}
+		}
+		return out
 	}
 	return nil
 }
